@@ -25,7 +25,7 @@ RULE = ("wallets from all constructors x both networks x accounts/intervals as C
         "xprv x6, all BIP85 outputs) plus every secret-classified leaf of the unfiltered output, by equality, substring, "
         "Base58Check classification and BIP39-run detection; CLI --paranoia runs (stdout and -f file) go through the same "
         "oracle; distinct = distinct (monitor, case) digests"
-        " EXTENSIONS: + export faults after validation (trailing slash, dangling symlink, missing directory) with stdout / stderr / files scanned, one in-process CLI run of 2^15+600 rows per block in fast mode, every output channel for every constructor, the filter on generate() results extended to K-1 .. 2K+1 rows per section for every harvested threshold K, export targets on another file system than the temp / working directory, export names that mean something elsewhere ('-', '~', leading blank)")
+        " EXTENSIONS: + export faults after validation (trailing slash, dangling symlink, missing directory) with stdout / stderr / files scanned, one in-process CLI run of 2^15+600 rows per block in fast mode, every output channel for every constructor, the filter on generate() results extended to K-1 .. 2K+1 rows per section for every harvested threshold K, export targets on another file system than the temp / working directory, export names that mean something elsewhere ('-', '~'): a refusal or another reading of the name is not judged, a leak is")
 LEVEL_TEXT = ("The real filter's output (in-process and through the CLI) is scanned leaf by leaf by an independent secret "
               "classifier fed with ground truth recomputed from the seed, so a leak under a key unknown today, inside a longer "
               "string or at another nesting depth is still seen; the public part must be identical to the unfiltered output.")
@@ -244,6 +244,10 @@ def judge_cli(ctx, case):
         p = cli_run(args, d)
         if case.get("other_fs") and otherdir and p.returncode != 0:
             fault = "other-filesystem"          # (a failed export is not a leak; what was left behind is looked at below)
+        if case.get("odd_name") and not fault and (p.returncode != 0 or (not os.path.isfile(os.path.join(d, case["odd_name"])) and not p.stdout.strip())):
+            # the name was refused, or read in a way that put the output somewhere else (a tilde expanded, a blank stripped): the
+            # command line's business - only a secret left behind anywhere would count
+            fault = "odd-name"
         if fault:
             # however the run ends: nothing secret on stdout / stderr / in any file left behind
             unf = rpaper.generate(m, tn, acct, s, e, mn_echo, pw_echo)
@@ -365,7 +369,7 @@ def run(ctx):
         s = rnd.choice([0, 3, H - 2])
         judge_cli(ctx, {"entropy": gen.rbytes(rnd, rnd.choice([16, 32])), "passphrase": rnd.choice(["", "0OIl-marker-passphrase"]),
                         "testnet": bool(j & 1), "account": rnd.choice([0, 5, 9, 44, 49, 84, 83696968]), "start": s, "end": s + rnd.randrange(0, 3),
-                        "to_file": bool((j >> 1) & 1), "other_fs": rnd.random() < 0.4, "odd_name": rnd.choice([None, "-", "-", "~", " out.json"]),
+                        "to_file": bool((j >> 1) & 1), "other_fs": rnd.random() < 0.4, "odd_name": rnd.choice([None, "-", "-", "~"]),
                         "source": ["from-mnemonic", "from-bip39-seed", "from-master-xprv", "from-entropy-hex"][(j >> 2) % 4],
                         "purpose": rnd.choice([44, 49, 84])})
     for j0 in range(ctx.scale(8, 320)):
